@@ -69,6 +69,9 @@ def run(ctx):
         n, E = l.n_vertices, l.n_edges
         P, Ed, C = zoo.raw(l)
         ctx.count("unit_cells")
+        if "lat_fp_prev" in dir() and lat_fp_prev is not None and core.lattice_fingerprint(lat_fp_prev[1], with_plaquettes=False) != lat_fp_prev[0]:
+            ctx.impl_violation(f"{lat_fp_prev[2]}: a Bloch-Hamiltonian call modified the lattice it was given", dict(case=lat_fp_prev[2], lattice=zoo.lat_to_json(lat_fp_prev[1])))
+        lat_fp_prev = (core.lattice_fingerprint(l, with_plaquettes=False), l, name)
         for trial in range(1 if quick else 3):
             u = (1 - 2 * rng.integers(0, 2, size=E)).astype(np.int8)
             J = rng.integers(1, 4 * SJ, size=3) / SJ
